@@ -139,6 +139,37 @@ func c24Exec(op string) string {
 			return "err"
 		}
 		return fmt.Sprintf("%d ts=%d", dv, ts)
+	case "ac3": // ac3 <site> <rate> <unit pts> <frames>: 90 kHz PTS of every frame written by the real MPEG-TS egress
+		fn, ok := verifutil.Funcs["protocols_"+f[1]+"_fromStreamAC3"].(func(int, int64, int) ([]int64, error))
+		if !ok {
+			return "unknown-copy"
+		}
+		got, err := fn(verifutil.Atoi(f[2]), verifutil.AtoI64(f[3]), verifutil.Atoi(f[4]))
+		if err != nil {
+			return "err"
+		}
+		var sb strings.Builder
+		for i, v := range got {
+			if i > 0 {
+				sb.WriteByte(' ')
+			}
+			fmt.Fprintf(&sb, "%d", v)
+		}
+		return sb.String()
+	case "mp": // mp <time scale> <start offset ns> <sample durations…>: duration returned by segmentFMP4MuxParts
+		fn, ok := verifutil.Funcs["playback_segmentFMP4MuxParts"].(func(int64, int64, []int64) (int64, error))
+		if !ok {
+			return "unknown-copy"
+		}
+		var ds []int64
+		for _, w := range f[3:] {
+			ds = append(ds, verifutil.AtoI64(w))
+		}
+		d, err := fn(verifutil.AtoI64(f[1]), verifutil.AtoI64(f[2]), ds)
+		if err != nil {
+			return "err"
+		}
+		return fmt.Sprintf("%d", d)
 	case "rh": // playback.segmentFMP4ReadHeader on a real header carrying <durationV0> <timescale>
 		f2, ok := verifutil.Funcs["playback_readHeader_duration"].(func(int64, int64) (int64, error))
 		if !ok {
@@ -156,6 +187,33 @@ func c24Exec(op string) string {
 // inline conversions (round 2): durations that are whole milliseconds (where a float64 detour loses a unit),
 // around the uint32 limit of the mvhd field, arbitrary nanoseconds, negative, huge
 func c24GenInline(r *verifutil.Rand) []string {
+	switch r.Intn(4) {
+	case 0: // round 4: derived timestamps — AC-3 frames of one unit through the MPEG-TS egress
+		rate := []int{32000, 44100, 44100, 48000}[r.Intn(4)]
+		pts := int64(r.U64() % (1 << 31))
+		switch r.Intn(3) {
+		case 0:
+			pts = int64(r.Intn(100000)) * 1536
+		case 1:
+			pts = int64(r.Intn(5)) * int64(rate)
+		}
+		return []string{"reset", fmt.Sprintf("ac3 mpegts %d %d %d", rate, pts, 2+r.Intn(5))}
+	case 1: // round 4: segment duration reported by playback for start offsets that are not whole ticks
+		ts := []int64{90000, 90000, 48000, 44100, 1000, 30000, 12800, 1000000, 600}[r.Intn(9)]
+		start := int64(r.U64()%7200000000000) - 3600000000000
+		switch r.Intn(4) {
+		case 0:
+			start = (int64(r.Intn(7200000)) - 3600000) * 1000000 // whole milliseconds
+		case 1:
+			start = int64(r.Intn(2000001)) - 1000000
+		}
+		n := 1 + r.Intn(3)
+		op := fmt.Sprintf("mp %d %d", ts, start)
+		for k := 0; k < n; k++ {
+			op += fmt.Sprintf(" %d", 1+int64(r.U64()%uint64(ts*4)))
+		}
+		return []string{"reset", op}
+	}
 	if r.Bool() {
 		var d int64
 		switch r.Intn(8) {
@@ -398,7 +456,7 @@ func c24Class(op, impl string) string {
 	if impl == "panic" {
 		return f[0] + "/panic-zero-divisor"
 	}
-	if f[0] == "wd" || f[0] == "rh" {
+	if f[0] == "wd" || f[0] == "rh" || f[0] == "ac3" || f[0] == "mp" {
 		if impl == "err" {
 			return f[0] + "/error"
 		}
